@@ -2090,10 +2090,27 @@ theorem pos_of_rowInShape (shape : List Int) (row : List Int) (h : RowInShape (s
   simp only [List.getElem_map] at this
   omega
 
-/-- the plain constructor with at least one entry: the range test of the entries implies positive extents -/
-theorem validate_sptensorI_ok_iff (a : SubsArgsI) (hne : a.subs ≠ []) :
-    validate_sptensorI a = .ok () ↔ Pre_subsI a := by
+/-- the plain constructor (after eaa8284): the size check, then the natural-number model -/
+theorem validate_sptensorI_ok_iff (a : SubsArgsI) : validate_sptensorI a = .ok () ↔ Pre_subsI a := by
   unfold validate_sptensorI Pre_subsI
+  by_cases hpos : a.shape.any (fun e => decide (e ≤ 0)) = false
+  · rw [hpos]
+    simp only [Bool.false_eq_true, if_false]
+    rw [validate_sptensor_ok_iff]
+    exact ⟨fun h => ⟨(any_nonpos_false_iff _).1 hpos, h⟩, fun h => h.2⟩
+  · have hp : a.shape.any (fun e => decide (e ≤ 0)) = true := by
+      cases h : a.shape.any (fun e => decide (e ≤ 0)) with
+      | true => rfl
+      | false => exact absurd h hpos
+    rw [hp]
+    simp only [if_true, error_ne_ok, false_iff]
+    exact fun h => hpos ((any_nonpos_false_iff _).2 h.1)
+
+/-- the constructor as it was before eaa8284, with at least one entry: the range test of the
+entries implies positive extents -/
+theorem pinned_sptensorI_ok_iff (a : SubsArgsI) (hne : a.subs ≠ []) :
+    Pinned.sptensorI a = .ok () ↔ Pre_subsI a := by
+  unfold Pinned.sptensorI Pre_subsI
   rw [validate_sptensor_ok_iff]
   refine ⟨fun h => ⟨?_, h⟩, fun h => h.2⟩
   obtain ⟨row, rest, hr⟩ := List.exists_cons_of_ne_nil hne
